@@ -103,6 +103,15 @@ def run(ctx):
     ctx.check(heap(fe56)["isotope"] == 56 and heap(fe56)["element"] is Fe, "R2", "the isotope carries its A and its element", "", s_pt)
     ctx.check(I.getattr(Fe, "isotopes") == [54, 56, 57, 58] and [heap(i)["isotope"] for i in I.lib.iterate(I, Fe)] == [54, 56, 57, 58], "R5",
               "isotopes are listed and iterated by increasing A exactly once", f"{I.getattr(Fe, 'isotopes')}", fsite(ctx, "core.Element.__iter__"))
+    # isotopes created after the isotope list was first looked at are reachable through every route
+    Og = I.getattr(T, "Og")
+    I.getattr(Og, "isotopes"); list(I.lib.iterate(I, Og))
+    og294 = call(Og, "add_isotope", sp.Integer(294))
+    ctx.check(294 in [int(x) for x in I.getattr(Og, "isotopes")] and [heap(i)["isotope"] for i in I.lib.iterate(I, Og)] == [294]
+              and raises(lambda: call(T, "isotope", "294-Og")) is None and call(T, "isotope", "294-Og") is og294 and sub(Og, 294) is og294, "R2",
+              "an isotope added after the isotope list was read is listed, iterated and found by 'A-Sym'",
+              f"isotopes = {I.getattr(Og, 'isotopes')}; isotope('294-Og') " + str(raises(lambda: call(T, 'isotope', '294-Og')) or "ok"),
+              fsite(ctx, "core.Element.add_isotope"))
     ions = heap(Fe)["ions"]
     for atom, label in ((Fe, "element"), (fe56, "isotope"), (D, "D")):
         for ch in (list(ions)[:3] if atom is not D else [1, -1]):
@@ -163,6 +172,12 @@ def run(ctx):
         red2 = call(moved, "__reduce__")
         ctx.check(raises(lambda: I.call(red2[0], list(red2[1]), {})) is None and I.call(red2[0], list(red2[1]), {}) is moved, "R3", f"{label}: an atom of a private table is restored into that table",
                   "restored elsewhere", fsite(ctx, "core._get_table"))
+    from ptstat.symlib import WeakDict
+    reg_ = I.global_name("core", "PRIVATE_TABLES")
+    ctx.check(isinstance(reg_, dict) and not isinstance(reg_, WeakDict) and reg_.get("verif") is T, "R3",
+              "the table registry used by the restorers keeps every table alive (strong references)",
+              "PRIVATE_TABLES holds its tables weakly: a private table whose atoms or formulas are still in use can be collected, after "
+              "which pickling/deep-copying those atoms no longer restores them", "periodictable/core.py PRIVATE_TABLES")
     rr = raises(lambda: I.call(I.global_name("core", "_get_table"), ["nosuch"], {}))
     ctx.check(rr == "ValueError", "R3", "restoring into an unknown table raises", f"{rr}", fsite(ctx, "core._get_table"))
     rr = raises(lambda: I.instantiate(PT, ["other"], {}, name="dup"))
@@ -183,7 +198,7 @@ def run(ctx):
         and ns.get("T") is Tt and set(names) == set(ns)
     ctx.check(okd, "R2", "define_elements exports every symbol and name (and D, T) bound to the table's own objects", "mismatch",
               fsite(ctx, "core.define_elements"), sample={"names": len(ns)})
-    ctx.floor("R2", 50); ctx.floor("R3", 19); ctx.floor("R4", 16); ctx.floor("R5", 2)
+    ctx.floor("R2", 50); ctx.floor("R3", 20); ctx.floor("R4", 16); ctx.floor("R5", 2)
 
     # ---- R6 element_base ------------------------------------------------------------------------------
     zs = sorted(base)
